@@ -131,7 +131,7 @@ func init() {
 		ID:   "C03",
 		Rule: "every token sequence up to the stated length over each declared alphabet is parsed once; non-trivial = some leaf is not a direct child of a root paragraph, or the block has an ordered list marker, or a construct spans lines",
 		Assumptions: []string{
-			"leaves = childless inline nodes and ListMarker blocks, observed through the public API",
+			"leaves = childless inline nodes of the kinds that carry text themselves (Text, RawHTML, CharacterReference, SoftLineBreak, HardLineBreak, Indent; Unparsed, which C05 forbids) and ListMarker blocks, observed through the public API; a container kind without children covers nothing",
 		},
 		Run: func(c *Ctx) {
 			c.forPlan(treePlan, func(x *X, in []byte) {
@@ -181,6 +181,14 @@ func checkCover(x *X, in []byte, rb *cm.RootBlock) (nontrivial, ok bool) {
 			return
 		}
 		if n.ChildCount() == 0 {
+			// Only the kinds that carry text themselves cover bytes ("leaves = nodes
+			// without children that carry text"): a container left without children
+			// (a destination whose text nodes were never collected) covers nothing.
+			switch n.Inline().Kind() {
+			case cm.TextKind, cm.RawHTMLKind, cm.CharacterReferenceKind, cm.SoftLineBreakKind, cm.HardLineBreakKind, cm.IndentKind, cm.UnparsedKind:
+			default:
+				return
+			}
 			mark(n.Span(), "leaf")
 			if depth > 2 || (parent.Block() != nil && parent.Block().Kind() != cm.ParagraphKind) {
 				nontrivial = true
@@ -277,6 +285,12 @@ func checkGrammar(x *X, in []byte, rb *cm.RootBlock, cfg string, nontrivial *boo
 		}
 		path = path + "/" + n.Kind().String()
 		kids := kidsOf(n)
+		for i, k := range kids {
+			if k == nil || k.Kind() == 0 {
+				fail("nil-child", "%s: child %d of %d is nil or has no kind", path, i, len(kids))
+				return
+			}
+		}
 		switch n.Kind() {
 		case cm.UnparsedKind:
 			fail("unparsed-remains", "%s: unparsed node remains", path)
@@ -491,6 +505,9 @@ func init() {
 			// matches; the interesting cases (a closer run used twice) need more
 			// symbols than the general alphabets reach.
 			c.Inputs(spaces.Emph4, c.Pick(11, 13), drv)
+			if !c.Thorough() {
+				c.Inputs(spaces.XDRuns, 6, drv) // one token deeper than the shared plan's quick tier
+			}
 		},
 	})
 }
